@@ -229,10 +229,11 @@ def render_md5(md5):
 class Conc:
     """one concretisation of an abstract package content pkg = {c: {name: blob id}, d: {...}, m: {name: sum id}}"""
 
-    def __init__(self, rng, pkg, qnames, canonical=False):
+    def __init__(self, rng, pkg, qnames, canonical=False, names=None):
         d = pkg["d"] or {}
         m = pkg["m"] or {}
-        self.names = gen_names(rng, set(qnames) | set(d) | set(m), canonical)
+        # names: share the real file names with another package (same names, different contents)
+        self.names = names if names is not None else gen_names(rng, set(qnames) | set(d) | set(m), canonical)
         self.fields = gen_fields(rng, canonical)
         self.blob = {}
         taken = set()
